@@ -1,22 +1,24 @@
 // ---- spec pool: the reaper's decision as a reference function over the ascending entry list (hand-written from the property statement:
-// purge closed entries, keep unexpired ones, keep `min_idle` of the expired ones (oldest first), remove the rest) ----
-pub ghost struct Ent { pub key: u64, pub closed: bool, pub idle_since: u64 }
+// purge closed entries, never touch a session that still carries streams, keep unexpired ones, keep `min_idle` of the expired ones
+// (oldest first), remove the rest) ----
+pub ghost struct Ent { pub key: u64, pub closed: bool, pub in_use: bool, pub idle_since: u64 }
 pub open spec fn idle_for(now: u64, since: u64) -> int { if now >= since { now - since } else { 0 } }
 pub open spec fn plan(ents: Seq<Ent>, i: int, active: int, now: u64, timeout: u64, min_idle: int) -> Seq<u64> decreases ents.len() - i
 {
     if i < 0 || i >= ents.len() { Seq::empty() }
     else if ents[i].closed { seq![ents[i].key] + plan(ents, i + 1, active, now, timeout, min_idle) }
+    else if ents[i].in_use { plan(ents, i + 1, active, now, timeout, min_idle) }          // in use: not idle, neither removed nor counted
     else if idle_for(now, ents[i].idle_since) < timeout { plan(ents, i + 1, active + 1, now, timeout, min_idle) }
     else if active < min_idle { plan(ents, i + 1, active + 1, now, timeout, min_idle) }
     else { seq![ents[i].key] + plan(ents, i + 1, active, now, timeout, min_idle) }
 }
 pub open spec fn n_open(ents: Seq<Ent>, i: int) -> int decreases ents.len() - i
-{ if i < 0 || i >= ents.len() { 0 } else { (if ents[i].closed { 0int } else { 1int }) + n_open(ents, i + 1) } }
+{ if i < 0 || i >= ents.len() { 0 } else { (if ents[i].closed || ents[i].in_use { 0int } else { 1int }) + n_open(ents, i + 1) } }
 // open entries the plan keeps, from position i on
 pub open spec fn n_kept_open(ents: Seq<Ent>, i: int, active: int, now: u64, timeout: u64, min_idle: int) -> int decreases ents.len() - i
 {
     if i < 0 || i >= ents.len() { 0 }
-    else if ents[i].closed { n_kept_open(ents, i + 1, active, now, timeout, min_idle) }
+    else if ents[i].closed || ents[i].in_use { n_kept_open(ents, i + 1, active, now, timeout, min_idle) }
     else if idle_for(now, ents[i].idle_since) < timeout || active < min_idle { 1 + n_kept_open(ents, i + 1, active + 1, now, timeout, min_idle) }
     else { n_kept_open(ents, i + 1, active, now, timeout, min_idle) }
 }
@@ -28,7 +30,7 @@ pub proof fn lemma_plan_keeps_minimum(ents: Seq<Ent>, i: int, active: int, now: 
     decreases ents.len() - i
 {
     if i < ents.len() {
-        if ents[i].closed { lemma_plan_keeps_minimum(ents, i + 1, active, now, timeout, min_idle); }
+        if ents[i].closed || ents[i].in_use { lemma_plan_keeps_minimum(ents, i + 1, active, now, timeout, min_idle); }
         else if idle_for(now, ents[i].idle_since) < timeout || active < min_idle { lemma_plan_keeps_minimum(ents, i + 1, active + 1, now, timeout, min_idle); }
         else { lemma_plan_keeps_minimum(ents, i + 1, active, now, timeout, min_idle); }
     }
@@ -42,34 +44,34 @@ pub proof fn lemma_plan_purges_closed(ents: Seq<Ent>, i: int, active: int, now: 
     let p = plan(ents, i, active, now, timeout, min_idle);
     if i == j { assert(p[0] == ents[j].key); }
     else {
-        let a2 = if ents[i].closed { active } else if idle_for(now, ents[i].idle_since) < timeout || active < min_idle { active + 1 } else { active };
+        let a2 = if ents[i].closed || ents[i].in_use { active } else if idle_for(now, ents[i].idle_since) < timeout || active < min_idle { active + 1 } else { active };
         let rest = plan(ents, i + 1, a2, now, timeout, min_idle);
         lemma_plan_purges_closed(ents, i + 1, a2, now, timeout, min_idle, j);
         let z = choose|z: int| 0 <= z < rest.len() && rest[z] == ents[j].key;
-        if ents[i].closed || !(idle_for(now, ents[i].idle_since) < timeout || active < min_idle) { assert(p =~= seq![ents[i].key] + rest); assert(p[z + 1] == ents[j].key); }
+        if ents[i].closed || (!ents[i].in_use && !(idle_for(now, ents[i].idle_since) < timeout || active < min_idle)) { assert(p =~= seq![ents[i].key] + rest); assert(p[z + 1] == ents[j].key); }
         else { assert(p == rest); }
     }
 }
-// everything in the plan is an entry that is closed or expired: an open, unexpired session is never destroyed
+// everything in the plan is an entry that is closed, or expired AND without streams: an open session that is unexpired or in use is never destroyed
 pub proof fn lemma_plan_only_closed_or_expired(ents: Seq<Ent>, i: int, active: int, now: u64, timeout: u64, min_idle: int)
     requires 0 <= i <= ents.len()
     ensures forall|z: int| 0 <= z < plan(ents, i, active, now, timeout, min_idle).len() ==> exists|q: int| i <= q < ents.len() && (#[trigger] ents[q]).key == (#[trigger] plan(ents, i, active, now, timeout, min_idle)[z])
-            && (ents[q].closed || idle_for(now, ents[q].idle_since) >= timeout)
+            && (ents[q].closed || (!ents[q].in_use && idle_for(now, ents[q].idle_since) >= timeout))
     decreases ents.len() - i
 {
     let p = plan(ents, i, active, now, timeout, min_idle);
     if i < ents.len() {
-        let a2 = if ents[i].closed { active } else if idle_for(now, ents[i].idle_since) < timeout || active < min_idle { active + 1 } else { active };
+        let a2 = if ents[i].closed || ents[i].in_use { active } else if idle_for(now, ents[i].idle_since) < timeout || active < min_idle { active + 1 } else { active };
         let rest = plan(ents, i + 1, a2, now, timeout, min_idle);
         lemma_plan_only_closed_or_expired(ents, i + 1, a2, now, timeout, min_idle);
-        let removed_i = ents[i].closed || !(idle_for(now, ents[i].idle_since) < timeout || active < min_idle);
+        let removed_i = ents[i].closed || (!ents[i].in_use && !(idle_for(now, ents[i].idle_since) < timeout || active < min_idle));
         if removed_i { assert(p =~= seq![ents[i].key] + rest); } else { assert(p == rest); }
-        assert forall|z: int| 0 <= z < p.len() implies exists|q: int| i <= q < ents.len() && (#[trigger] ents[q]).key == (#[trigger] p[z]) && (ents[q].closed || idle_for(now, ents[q].idle_since) >= timeout) by {
+        assert forall|z: int| 0 <= z < p.len() implies exists|q: int| i <= q < ents.len() && (#[trigger] ents[q]).key == (#[trigger] p[z]) && (ents[q].closed || (!ents[q].in_use && idle_for(now, ents[q].idle_since) >= timeout)) by {
             if removed_i && z == 0 { assert(ents[i].key == p[0]); }
             else {
                 let zz = if removed_i { z - 1 } else { z };
                 assert(rest[zz] == p[z]);
-                let q = choose|q: int| i + 1 <= q < ents.len() && (#[trigger] ents[q]).key == rest[zz] && (ents[q].closed || idle_for(now, ents[q].idle_since) >= timeout);
+                let q = choose|q: int| i + 1 <= q < ents.len() && (#[trigger] ents[q]).key == rest[zz] && (ents[q].closed || (!ents[q].in_use && idle_for(now, ents[q].idle_since) >= timeout));
                 assert(ents[q].key == p[z]);
             }
         }
@@ -78,12 +80,12 @@ pub proof fn lemma_plan_only_closed_or_expired(ents: Seq<Ent>, i: int, active: i
 // `ents` lists the map's entries in ascending key order (what BTreeMap::iter yields), reduced to what the reaper looks at
 pub open spec fn is_listing(m: Map<u64, PooledSession>, ents: Seq<Ent>) -> bool {
     &&& ents.len() == m.dom().len()
-    &&& forall|i: int| 0 <= i < ents.len() ==> m.contains_key((#[trigger] ents[i]).key) && ents[i].closed == m[ents[i].key].session.closed && ents[i].idle_since == m[ents[i].key].idle_since.t
+    &&& forall|i: int| 0 <= i < ents.len() ==> m.contains_key((#[trigger] ents[i]).key) && ents[i].closed == m[ents[i].key].session.closed && ents[i].in_use == (m[ents[i].key].session.open_streams > 0) && ents[i].idle_since == m[ents[i].key].idle_since.t
     &&& forall|i: int, j: int| 0 <= i < j < ents.len() ==> (#[trigger] ents[i]).key < (#[trigger] ents[j]).key
     &&& forall|k: u64| m.contains_key(k) ==> exists|i: int| 0 <= i < ents.len() && (#[trigger] ents[i]).key == k
 }
 pub open spec fn listing_of(v: Seq<(&u64, &PooledSession)>) -> Seq<Ent> {
-    Seq::new(v.len(), |i: int| Ent { key: *v[i].0, closed: v[i].1.session.closed, idle_since: v[i].1.idle_since.t })
+    Seq::new(v.len(), |i: int| Ent { key: *v[i].0, closed: v[i].1.session.closed, in_use: v[i].1.session.open_streams > 0, idle_since: v[i].1.idle_since.t })
 }
 // what one reaper pass must establish, for the clock value `now` it read
 pub open spec fn reaped(o: PoolState, f: PoolState, timeout: u64, min_idle: int, ents: Seq<Ent>, now: u64) -> bool {
